@@ -13,15 +13,20 @@ META = dict(
          'in between): after every step the pool has no duplicate '
          '(point, name), no empty point bucket, the cached list equals the '
          'flattened map, every lookup agrees with a reference set, and a '
-         'removed task is marked transient and leaves its queue.',
+         'removed task is marked transient and leaves its queue; and the rows '
+         'the real WorkflowDatabaseManager.put_task_pool queues after every '
+         'step (adds, removals, flow merges, holds), applied to a model of '
+         'the task_pool table (delete-all + insert-or-replace on the primary '
+         'key), leave the table equal to the pool.',
     note='2 task names x 2 cycle points, sequences of 3 (thorough 4) '
          'operations from an empty pool; data store / DB / xtrigger manager '
          'are stubs; tasks are not runahead-limited (removal then spawns no '
-         'successor); the task_pool DB table is outside (sqlite).',
+         'successor); the task_pool table is a dictionary model keyed by its primary key (sqlite itself: C21).',
     functions=['TaskPool.add_to_pool', 'TaskPool.remove', 'TaskPool.get_tasks',
                'TaskPool.get_task', 'TaskPool._get_task_by_id',
                'TaskPool.get_task_ids', 'TaskPool.get_tasks_by_point',
-               'TaskPool.release_held_active_task'],
+               'TaskPool.release_held_active_task', 'TaskPool.merge_flows',
+               'WorkflowDatabaseManager.put_task_pool'],
     bounds=['operations: add / remove of instance (name in {b, c}, point in '
             '{1, 2}), optional get_tasks() read after each; length 3 quick / '
             '4 thorough; a second TaskProxy object for the same identity is '
@@ -29,7 +34,7 @@ META = dict(
     stubs=['data_store_mgr', 'workflow_db_mgr', 'task_events_mgr',
            'xtrigger_mgr (real, on stub scheduler)'],
     assumptions=[],
-    outside=['persistence in the task_pool table (sqlite)',
+    outside=['sqlite execution of the queued statements (C21)',
              'spawn_next_parentless on removal of runahead tasks (C04/C07)'],
 )
 
@@ -118,12 +123,81 @@ def ops(o1: int, o2: int, o3: int, o4: int) -> bool:
     return True
 
 
+# --- the task_pool table written by put_task_pool ---------------------------
+def _apply(mgr, table):
+    """Model of how the queued operations reach the task_pool table:
+    deletes first ({} = every row), then INSERT OR REPLACE on the primary key
+    (cycle, name, flow_nums) - as CylcWorkflowDAO does (C21 covers the DAO)."""
+    T = mgr.TABLE_TASK_POOL
+    for where in mgr.db_deletes_map[T]:
+        for key in list(table):
+            row = table[key]
+            if all(row[k] == v for k, v in where.items()):
+                del table[key]
+    for row in mgr.db_inserts_map[T]:
+        table[(row['cycle'], row['name'], row['flow_nums'])] = dict(row)
+    for m in (mgr.db_deletes_map, mgr.db_inserts_map, mgr.db_updates_map):
+        for lst in m.values():
+            del lst[:]
+
+
+def db_table(o1: int, o2: int, o3: int, o4: int) -> bool:
+    """
+    pre: sl(o1=o1)
+    pre: 0 <= o1 < 8 and 0 <= o2 < 8 and 0 <= o3 < 8 and 0 <= o4 < 8
+    post: _
+    """
+    from cylc.flow.workflow_db_mgr import WorkflowDatabaseManager
+    from cylc.flow.util import serialise_set
+    with concrete():
+        pool = fx.pool(CFG)
+        mgr = WorkflowDatabaseManager()
+        mgr.pri_dao = mgr.pub_dao = None     # nothing reaches sqlite
+        dao = pool.workflow_db_mgr.pri_dao
+        pool.workflow_db_mgr = mgr
+        objs = {}
+        for n in NAMES:
+            it = fx.itask(CFG, n, 1)
+            it.state.is_runahead = False
+            objs[n] = it
+        nops = SLICE.get('nops', 3)
+    table = {}
+    for o in (o1, o2, o3, o4)[:nops]:
+        o = fork_int(o, 0, 7)
+        it = objs[NAMES[o & 1]]
+        kind = o >> 1
+        inpool = any(t is it for t in pool.get_tasks())
+        if kind == 0:
+            pool.add_to_pool(it)
+        elif kind == 1:
+            pool.remove(it)
+        elif kind == 2:
+            if inpool:
+                with concrete():
+                    new = {2}
+                pool.merge_flows(it, new)
+        else:
+            if inpool:
+                pool.hold_active_task(it)
+        # the scheduler's main loop: put_task_pool, then process queued ops
+        mgr.put_task_pool(pool)
+        _apply(mgr, table)
+        want = {(str(t.point), t.tdef.name, serialise_set(t.flow_nums)):
+                (t.state.status, t.state.is_held) for t in pool.get_tasks()}
+        got = {k: (r['status'], bool(r['is_held'])) for k, r in table.items()}
+        if got != want:
+            return False
+    return True
+
+
 def OBLIGATIONS(tier):
     big = tier == 'thorough'
     t = 1500 if big else 150
     return [Ob(f'ops[o1={o1}]', 'ops', timeout=t, twin=(o1 == 0),
                slice={'o1': o1, 'nops': 4 if big else 3})
-            for o1 in range(16)]
+            for o1 in range(16)] + [
+        Ob(f'db_table[o1={o1}]', 'db_table', timeout=t, twin=(o1 == 0),
+           slice={'o1': o1, 'nops': 4 if big else 3}) for o1 in range(8)]
 
 
 def VALIDATE():
@@ -133,6 +207,10 @@ def VALIDATE():
                 (2, 10, 3, 11)):
         SLICE['o1'] = seq[0]
         assert ops(*seq), seq
+        n += 1
+    for seq in ((0, 4, 6, 2), (0, 1, 4, 5), (1, 3, 5, 7)):
+        SLICE['o1'] = seq[0]
+        assert db_table(*seq), seq
         n += 1
     SLICE.clear()
     return n
